@@ -3,7 +3,9 @@
 // "<model input line>\t<implementation outcome>".
 //
 // Authorities: "both" (user and host SSH signer, bbolt database, SSHPOP provisioner),
-// "none" (no SSH signer), "user" (user signer only), "host" (host signer only).
+// "bothnodb", "none" (no SSH signer), "user" (user signer only), "host" (host signer only), and
+// "fed": both signers plus `ssh.keys` holding a *federated* host key and a *federated* user key
+// (keys of other SSH CAs) and a non-federated old host key (a former key of this CA).
 // Provisioners on each: jwk (fixture default), x5c, oidc (loopback discovery; admin = adminEmail).
 package main
 
@@ -40,6 +42,7 @@ import (
 	"golang.org/x/crypto/ssh"
 
 	"github.com/smallstep/certificates/authority"
+	"github.com/smallstep/certificates/authority/config"
 	"github.com/smallstep/certificates/authority/provisioner"
 	"github.com/smallstep/certificates/db"
 	c "verif/harness/common"
@@ -65,7 +68,7 @@ type Case struct {
 	Key    string // ed | ec | rsa2048 | rsa1024 | dsa
 	// pop
 	Cert    Opts   // fields of the presented certificate; CertType "user" | "host" | "3"
-	SignBy  string // host | user | foreign          which key signed the presented certificate
+	SignBy  string // host | user | foreign | fedhost | feduser | oldhost   which key signed the presented certificate
 	Window  string // ok | future | expired | zero    validity of the presented certificate
 	TokKey  string // cert | other                    key signing the token
 	Aud     string // ok | wrong
@@ -93,6 +96,9 @@ type env struct {
 	userKey  crypto.Signer
 	hostKey  crypto.Signer
 	foreign  ssh.Signer
+	fedHost  crypto.Signer // key of another SSH CA, configured as federated host key on "fed"
+	fedUser  crypto.Signer // … federated user key on "fed"
+	oldHost  crypto.Signer // former host key of this CA (ssh.keys, federated=false) on "fed"
 	x5cRoot  *minica.CA
 	x5cLeaf  *x509.Certificate
 	x5cKey   crypto.Signer
@@ -157,6 +163,22 @@ func newEnv() (*env, error) {
 		Extra: []authority.Option{authority.WithSSHHostSigner(e.hostKey)}}))
 	e.cas["bothnodb"] = must(fixture.New(fixture.Opts{NoDB: true, Provisioners: mkProvs("bothnodb", true), JWKClaims: jc, From: &fixture.CA{MiniCA: both.MiniCA, JWK: both.JWK},
 		Extra: []authority.Option{authority.WithSSHUserSigner(e.userKey), authority.WithSSHHostSigner(e.hostKey)}}))
+	e.fedHost = must(ecdsa.GenerateKey(elliptic.P256(), rand.Reader))
+	e.fedUser = must(ecdsa.GenerateKey(elliptic.P256(), rand.Reader))
+	e.oldHost = must(ecdsa.GenerateKey(elliptic.P256(), rand.Reader))
+	jwkOf := func(k crypto.Signer) jose.JSONWebKey { return jose.JSONWebKey{Key: k.Public()} }
+	e.cas["fed"] = must(fixture.New(fixture.Opts{NoDB: true, Provisioners: mkProvs("fed", true), JWKClaims: jc, From: &fixture.CA{MiniCA: both.MiniCA, JWK: both.JWK},
+		Extra: []authority.Option{authority.WithSSHUserSigner(e.userKey), authority.WithSSHHostSigner(e.hostKey)},
+		Config: func(cfg *config.Config) {
+			cfg.SSH = &config.SSHConfig{Keys: []*config.SSHPublicKey{
+				{Type: "host", Federated: true, Key: jwkOf(e.fedHost)},
+				{Type: "user", Federated: true, Key: jwkOf(e.fedUser)},
+				{Type: "host", Federated: false, Key: jwkOf(e.oldHost)},
+			}}
+			if err := cfg.SSH.Validate(); err != nil {
+				panic(err)
+			}
+		}}))
 	e.foreign = must(ssh.NewSignerFromSigner(must(ecdsa.GenerateKey(elliptic.P256(), rand.Reader))))
 	_, edk, _ := ed25519.GenerateKey(rand.Reader)
 	e.keys["ed"] = edk
@@ -212,7 +234,7 @@ func xlist(l []string) string {
 
 func caBits(name string) (string, string) {
 	switch name {
-	case "both", "bothnodb":
+	case "both", "bothnodb", "fed":
 		return "1", "1"
 	case "user":
 		return "1", "0"
@@ -376,6 +398,12 @@ func (e *env) runPop(k *Case) (line, impl string, ok bool) {
 		signer = must(ssh.NewSignerFromSigner(e.hostKey))
 	case "user":
 		signer = must(ssh.NewSignerFromSigner(e.userKey))
+	case "fedhost":
+		signer = must(ssh.NewSignerFromSigner(e.fedHost))
+	case "feduser":
+		signer = must(ssh.NewSignerFromSigner(e.fedUser))
+	case "oldhost":
+		signer = must(ssh.NewSignerFromSigner(e.oldHost))
 	default:
 		signer = e.foreign
 	}
@@ -432,8 +460,11 @@ func (e *env) runPop(k *Case) (line, impl string, ok bool) {
 		return must(ssh.NewPublicKey(key.Public())).Verify(b, old.Signature) == nil
 	}
 	cau, cah := caBits(k.CA)
+	// "signed by this CA" = verifies under one of this CA's own SSH root keys: its signer key and,
+	// on "fed", the former host key configured with federated=false. Keys configured with
+	// federated=true belong to other CAs and do not count.
 	su := cau == "1" && verifies(e.userKey)
-	sh := cah == "1" && verifies(e.hostKey)
+	sh := cah == "1" && (verifies(e.hostKey) || (k.CA == "fed" && verifies(e.oldHost)))
 	line = fmt.Sprintf("op=%s cau=%s cah=%s dbe=%s dren=%s aexp=0 ct=%d kid=%s pr=%s perms=7 su=%s sh=%s ny=%s ex=%s hv=%s tsig=%s tcl=%s taud=%s tsub=%s tser=%s rev=%s key=%s case=x%s",
 		k.Op, cau, cah, c.B(ca.DB != nil), c.B(k.DisRen), ct, c.X(k.Cert.KeyID), xlist(k.Cert.Principals), c.B(su), c.B(sh),
 		c.B(k.Window == "future"), c.B(k.Window == "expired"), c.B(va != 0 && vb != 0),
